@@ -69,10 +69,51 @@ THEOREMS = [
     "OllamaVerif.Tie.C19.inPlace_tree_is_parsed",
     "OllamaVerif.Tie.C19.header_tree_is_parsed",
     "OllamaVerif.Tie.C19.default_tree_touch_up",
+    # round 7
+    "OllamaVerif.C19.chatPrompt_total",
+    "OllamaVerif.C19.cut_is_spec",
+    "OllamaVerif.C19.images_are_spec",
+    "OllamaVerif.Prompt.collate_refines",
+    "OllamaVerif.Prompt.collate_system_inorder",
+    "OllamaVerif.Prompt.legacy_join_in_order",
+    "OllamaVerif.C19.legacy_join_in_order_tLegacy",
+    "OllamaVerif.C19.inplace_in_order",
+    "OllamaVerif.C19.header_in_order",
+    "OllamaVerif.C19.prompt_in_order_inplace",
+    "OllamaVerif.C19.prompt_in_order_header",
+    "OllamaVerif.C19.prompt_in_order_legacy",
+    "OllamaVerif.Tie.C19.image_tokens_and_guard_plain",
+    "OllamaVerif.Tie.C19.image_tokens_and_guard_mllama",
+    "OllamaVerif.Tie.C19.image_tokens_projector_nil_vs_empty",
+    "OllamaVerif.Tie.C19.latest_never_measured",
+    "OllamaVerif.Tie.C19.collate_separators",
+    "OllamaVerif.Tie.C19.legacy_loop_is_join_repaired",
 ]
+# branches of the model (scan / total / finalSystem / stepImg / imgData / execute path / legacyStep / cutNode) that
+# the theorems talk about; counted by the driver per generated case (zz_verif_c19cov_test.go); a run in which one
+# of them is never exercised does not support the correspondence claim -> `correspondence-coverage`
+REQUIRED_BRANCHES = [
+    "br_chat_empty_conversation_panics", "br_scan_single_message_never_measured",
+    "br_scan_every_candidate_fits", "br_scan_break_at_first_candidate", "br_scan_break_in_the_middle",
+    "br_scan_err_too_many_images", "br_scan_fail_tokenizer", "br_scan_fail_template_or_final_exec_error",
+    "br_rewrite_preprocess_error",
+    "br_total_image_cost_charged", "br_total_image_cost_not_charged_nil_projector",
+    "br_final_system_before_cut_nonempty", "br_final_system_before_cut_several", "br_final_system_at_cut",
+    "br_final_system_none_before_cut",
+    "br_stepimg_fill_slot", "br_stepimg_prefix_tag", "br_rewrite_placeholder_without_image_kept",
+    "br_rewrite_more_placeholders_than_images",
+    "br_imgdata_plain", "br_imgdata_mllama_raw", "br_imgdata_mllama_preprocessed",
+    "br_execute_messages_path", "br_execute_legacy_path", "br_cut_else_list_after_cut_dropped",
+    "br_collate_merge_adjacent",
+    "br_legacy_system_flush", "br_legacy_system_noflush", "br_legacy_user_flush", "br_legacy_user_noflush",
+    "br_legacy_assistant", "br_legacy_ignored_role",
+    "br_legacy_join_occupied_system", "br_legacy_join_occupied_prompt", "br_legacy_join_occupied_response",
+]
+
 OVERLAY = {"server/zz_verif_c19_test.go": "server/zz_verif_c19_test.go",
            "server/zz_verif_c19tmpl_test.go": "server/zz_verif_c19tmpl_test.go",
-           "server/zz_verif_c19handler_test.go": "server/zz_verif_c19handler_test.go"}
+           "server/zz_verif_c19handler_test.go": "server/zz_verif_c19handler_test.go",
+           "server/zz_verif_c19cov_test.go": "server/zz_verif_c19cov_test.go"}
 OVERLAY_RUNNER = {"runner/ollamarunner/zz_verif_c19_test.go": "runner_ollamarunner/zz_verif_c19_test.go"}
 
 
@@ -92,6 +133,23 @@ def regenerate(ctx):
             + "".join(defs) +
             "end OllamaVerif.Generated.C19\n")
     core.write_generated("OllamaVerif/Generated/C19_Trees.lean", body)
+    # Tie 1, round 7: constants / guards obtained by executing the real chatPrompt and template.Execute on
+    # probe inputs (consts.txt of the same driver run): `name : Type := term`
+    cdefs = []
+    cpath = os.path.join(outdir, "consts.txt")
+    if rc == 0 and os.path.exists(cpath):
+        for line in open(cpath):
+            line = line.rstrip("\n")
+            if " := " in line:
+                cdefs.append(f"def {line}\n")
+    cbody = ("-- REGENERATED on every run by vlib/checks/c19.py from the tree under test. Do not edit.\n"
+             "import OllamaVerif.Model.Prompt\n"
+             "namespace OllamaVerif.Generated.C19\n"
+             "open OllamaVerif OllamaVerif.Prompt\n"
+             "/-! facts obtained by executing the real chatPrompt / template.Execute on probe inputs (c19WriteConsts) -/\n"
+             + "".join(cdefs) +
+             "end OllamaVerif.Generated.C19\n")
+    core.write_generated("OllamaVerif/Generated/C19_Consts.lean", cbody)
 
 
 def run(ctx):
@@ -104,9 +162,16 @@ def run(ctx):
     rc, out, outdir = ctx.go_test("./server/", OVERLAY, "^TestVerifC19$", env=env)
     if rc != 0:
         ctx.violation("driver-failed", "", out[-1500:], no_input=True)
-    ctx.read_stats(outdir)
+    st = ctx.read_stats(outdir)
     ctx.l1(outdir)
     ctx.classify(ctx.l2(outdir))
+    if not ctx.replay:
+        missing = [b for b in REQUIRED_BRANCHES if st.get(b, 0) == 0]
+        ctx.coverage["model_branches_required"] = len(REQUIRED_BRANCHES)
+        ctx.coverage["model_branches_exercised"] = len(REQUIRED_BRANCHES) - len(missing)
+        if missing:
+            ctx.violation("correspondence-coverage", "", "model branches never exercised by the generated cases: "
+                          + ", ".join(missing), no_input=True)
 
     # handler level: POST /api/chat through the real CreateHandler + ChatHandler with a mock runner
     if not ctx.replay or "hchat " in open(env["VERIF_REPLAY"]).read():
